@@ -608,6 +608,7 @@ class DirectiveModel:
         res = r.variant if isinstance(r, I.Enum) else repr(r)
         if res == "Err" and isinstance(r.fields.get("0"), I.Enum):
             res = "Err(%s)" % r.fields["0"].variant
+        self.last_num_params = {m.fields.get("name"): m.fields.get("num_params") for m in ms}
         return (res, [(m.fields["name"], m.fields["is_function"], [t_.fields["0"].variant for t_ in m.fields["tokens"]]) for m in ms],
                 [s.variant for s in ch.fields["0"]], eff)
 
@@ -624,6 +625,11 @@ def rule_redef_eval(chk, pc):
         ("define-replaces-other-kind", dm.words("define", "X", 7), [XF, Y], [], ("Ok", [("Y", False, []), ("X", False, ["LiteralInt"])], [], [])),
         ("define-replaces-api-define", dm.words("define", "X", 7), [dm.macro("X", [dm.tok("LiteralInt", 1)], from_api=True), Y], [], ("Ok", [("Y", False, []), ("X", False, ["LiteralInt"])], [], [])),
         ("undef-api-define", dm.words("undef", "X"), [dm.macro("X", [dm.tok("LiteralInt", 1)], from_api=True), Y], [], ("Ok", [("Y", False, [])], [], [])),
+        ("define-same-body-other-kind", dm.words("define", "X", 9), [XF, Y], [], ("Ok", [("Y", False, []), ("X", False, ["LiteralInt"])], [], [])),
+        ("define-same-body-as-function", [dm.ident("define"), dm.tok("Whitespace"), dm.ident("X"), dm.tok("LeftParen"), dm.ident("a"), dm.tok("RightParen"), dm.tok("Whitespace"), dm.tok("LiteralInt", 1)],
+         [X1, Y], [], ("Ok", [("Y", False, []), ("X", True, ["LiteralInt"])], [], [])),
+        ("define-same-body-more-parameters", [dm.ident("define"), dm.tok("Whitespace"), dm.ident("X"), dm.tok("LeftParen"), dm.ident("a"), dm.tok("Comma"), dm.ident("b"), dm.tok("RightParen"),
+                                              dm.tok("Whitespace"), dm.tok("LiteralInt", 9)], [XF, Y], [], ("Ok", [("Y", False, []), ("X", True, ["LiteralInt"])], [], [])),
         ("define-skipped", dm.words("define", "X", 2), [X1, Y], ["DisabledInner"], ("Ok", [("X", False, ["LiteralInt"]), ("Y", False, [])], ["DisabledInner"], [])),
         ("undef", dm.words("undef", "X"), [X1, Y], [], ("Ok", [("Y", False, [])], [], [])),
         ("undef-unknown", dm.words("undef", "Q"), [X1, Y], [], ("Ok", [("X", False, ["LiteralInt"]), ("Y", False, [])], [], [])),
@@ -635,6 +641,13 @@ def rule_redef_eval(chk, pc):
         if first and got[0] == "unreadable":
             return False
         first = False
+        if len(got) == 4 and isinstance(got[1], list) and len({m[0] for m in got[1]}) == len(got[1]):
+            # (which position a redefined macro takes in the list is not observable while names are unique)
+            got = (got[0], sorted(got[1]), got[2], got[3])
+            want = (want[0], sorted(want[1]), want[2], want[3])
+        if name == "define-same-body-more-parameters" and got == want and dm.last_num_params.get("X") != 2:
+            got = (got, "the macro takes %s parameter(s)" % dm.last_num_params.get("X"))
+            want = (want, "the macro takes 2 parameter(s)")
         chk.ob("C12.redef/model/%s" % name, got == want, "macro list afterwards: %s" % [m[0] for m in want[1]] if got == want else
                "directive `#%s` on macros %s in chain %s gives %s, must be %s" % (name, [m.fields["name"] for m in ms], chain, (got,), (want,)), where(pc), sample={"case": name})
     for k_ in ("C12.redef/retain-by-name", "C12.redef/remove-before-push"):
